@@ -161,10 +161,19 @@ func applyOp(op string, pk rtcp.Packet, buf []byte) (res string, applicable bool
 // ---- (A) histories ----------------------------------------------------------------------
 
 type c18History struct {
-	Packets []m.Packet // built in memory
-	Decoded []m.Bytes  // packets obtained by decoding these (accepted) datagrams are added to the pool
-	Buffers []m.Bytes  // input buffers for the unmarshal operations
+	Packets []m.Packet  // built in memory
+	Decoded []m.Bytes   // packets obtained by decoding these (accepted) datagrams are added to the pool
+	Direct  []c18Direct // packets decoded by a type's own decoder from a window of a larger buffer
+	Buffers []m.Bytes   // input buffers for the unmarshal operations
 	Steps   []c18Step
+}
+
+// c18Direct: Buf[:Hi] is handed to the decoder of Kind; the octets after Hi belong to the
+// caller and must never change (decoded packets may alias the window).
+type c18Direct struct {
+	Kind m.Kind
+	Buf  m.Bytes
+	Hi   int
 }
 
 var subC18A = harness.NewSub("c18-history-purity", func(c c18History, _ harness.Dialect) error {
@@ -178,6 +187,19 @@ var subC18A = harness.NewSub("c18-history-purity", func(c c18History, _ harness.
 		keepAlive = append(keepAlive, in)
 		if ps, err := rtcp.Unmarshal(in); err == nil {
 			pool = append(pool, ps...)
+		}
+	}
+	for _, dd := range c.Direct {
+		in := append(make([]byte, 0, len(dd.Buf)+8), dd.Buf...)
+		keepAlive = append(keepAlive, in)
+		c.Decoded = append(c.Decoded, dd.Buf) // pristine copy for the invariant below
+		hi := dd.Hi
+		if hi > len(in) {
+			hi = len(in)
+		}
+		recv := conv.New(dd.Kind)
+		if err := recv.Unmarshal(in[:hi]); err == nil {
+			pool = append(pool, recv)
 		}
 	}
 	if len(pool) == 0 {
@@ -280,6 +302,29 @@ var subC18A = harness.NewSub("c18-history-purity", func(c c18History, _ harness.
 	return nil
 })
 
+func genC18Direct(t *rapid.T) []c18Direct {
+	var out []c18Direct
+	for i := rapid.IntRange(0, 2).Draw(t, "ndirect"); i > 0; i-- {
+		k := rapid.SampledFrom([]m.Kind{m.KRR, m.KSR, m.KRR, m.KSDES, m.KBYE, m.KAPP, m.KNACK, m.KTWCC, m.KCCFB, m.KXR, m.KREMB, m.KFIR, m.KPLI}).Draw(t, "direct.kind")
+		p := gen.PacketOf(t, k)
+		shrinkBig(p)
+		e, err := m.Encode(p, &m.EncOpts{D: gen.PionDialect})
+		if err != nil || len(e.B) > 4096 {
+			continue
+		}
+		extra := gen.BytesN(t, rapid.IntRange(1, 9).Draw(t, "direct.extra"), "direct.tail")
+		for j := range extra {
+			if extra[j] == 0 {
+				extra[j] = 0xA5 // zero padding written past the window would otherwise be invisible
+			}
+		}
+		buf := append(append([]byte(nil), e.B...), extra...)
+		hi := len(e.B) + rapid.IntRange(0, len(extra)-1).Draw(t, "direct.hi")
+		out = append(out, c18Direct{Kind: k, Buf: buf, Hi: hi})
+	}
+	return out
+}
+
 func genC18Pool(t *rapid.T, maxPackets int) ([]m.Packet, []m.Bytes, []m.Bytes) {
 	var packets []m.Packet
 	for i := rapid.IntRange(1, maxPackets).Draw(t, "npackets"); i > 0; i-- {
@@ -331,9 +376,9 @@ type c18Target struct {
 type c18Script struct {
 	Procs   int
 	Shared  []m.Packet
-	Buffers []m.Bytes      // shared input buffers
-	Own     [][]m.Packet   // per goroutine
-	Ops     [][]c18Target  // per goroutine
+	Buffers []m.Bytes     // shared input buffers
+	Own     [][]m.Packet  // per goroutine
+	Ops     [][]c18Target // per goroutine
 }
 
 func runScript(c c18Script, concurrent bool) [][]string {
@@ -474,6 +519,7 @@ func genC18Script(t *rapid.T, opsPer int) c18Script {
 }
 
 func TestC18(t *testing.T) {
+	defer harness.Uncaught(t)
 	// The driver runs this test twice: with the plain binary for (A) and with the -race binary for (B).
 	if raceEnabled {
 		testC18Schedules(t)
@@ -483,6 +529,7 @@ func TestC18(t *testing.T) {
 	harness.RapidCheck(t, harness.Scale(700, 6000), 18, func(rt *rapid.T) {
 		var c c18History
 		c.Packets, c.Decoded, c.Buffers = genC18Pool(rt, 3)
+		c.Direct = genC18Direct(rt)
 		n := rapid.IntRange(1, 60).Draw(rt, "nsteps")
 		for i := 0; i < n; i++ {
 			c.Steps = append(c.Steps, c18Step{Op: rapid.SampledFrom(c18Ops).Draw(rt, "op"), Idx: rapid.IntRange(0, 7).Draw(rt, "idx")})
